@@ -7,6 +7,7 @@ correspondence, which compares every READDIR / READDIRPLUS reply entry by entry,
 cookie, for all budgets and cookies).  All statements hold for BOTH procedures and ALL
 budgets because they are proved for `page` with arbitrary limits and increments.
 -/
+import GoNfsd.Lemmas.DirData
 import GoNfsd.Lemmas.Enumerate
 
 namespace GoNfsd.Props.C13
@@ -328,5 +329,22 @@ example :
     (enumerate (fun c => readdirPage slots c 97) 6 0).2 = true ∧
     (enumerate (fun c => readdirPage slots c 97) 6 0).1.map (·.2) = [128, 256, 512, 640] := by
   decide
+
+/-! ### down to the directory's blocks (model M7e on M7d) -/
+
+open GoNfsd.Model.FileData in
+/-- Enumerating a directory AS IT LIES ON DISK — the slots decoded from the bytes of its blocks after
+    any history of entry writes and removals — returns every live entry exactly once, with any
+    budgets: `enumeration_exact` of the slot list the reference model has, which is what the blocks
+    decode to (`Props/C04.directory_blocks_refine_the_slot_list`). -/
+theorem enumeration_exact_on_directory_blocks (ops : List DirOp) (ha : DirAllowed F.empty ops) :
+    enumerate (fun c => page (slotsOf (ops.foldl F.dirApply F.empty)) c lim1 lim2 inc1 inc2 n1 n2)
+        ((ops.foldl slotApply []).length + 1) 0
+      = (liveFrom (ops.foldl slotApply []) 0, true) := by
+  obtain ⟨_, h2, _⟩ := dir_history_refines ops F.empty empty_inv ⟨0, by simp [F.empty]⟩ ha
+  have h0 : slotsOf F.empty = [] := by simp [slotsOf, F.empty]
+  rw [h0] at h2
+  rw [h2]
+  exact (enumeration_exact lim1 lim2 inc1 inc2 n1 n2 (ops.foldl slotApply [])).1
 
 end GoNfsd.Props.C13
